@@ -9,17 +9,12 @@ import PromVerif.Lemmas.OMHist
 namespace PromVerif.Lemmas.OM
 open PromVerif.Py PromVerif.Model.ParseCore PromVerif.Model.Validation PromVerif.Model.OMParse PromVerif.Generated.OMParse
 
-/-- a native-histogram sample as far as `_check_histogram` is concerned: no value; its name does not continue the
-family name with `_bucket` (no `le` look-up) or `_gsum` (no `value < 0`) -/
-def NhIn (n : Str) (s : OSample) : Prop :=
-  s.value = none ∧ s.name.drop n.length ≠ sBucket ∧ s.name.drop n.length ≠ sGsum
-
-/-- what `_check_histogram` needs of a sample list of family `n`: plain samples — one whose name continues `n` with
-`_bucket` is exactly `n_bucket` and carries an `le` label — and native-histogram samples as above -/
+/-- what `_check_histogram` needs of a sample list of family `n`: native-histogram samples (skipped, 2c736ec) and
+plain samples — one whose name continues `n` with `_bucket` is exactly `n_bucket` and carries an `le` label -/
 def HistOK (n : Str) (samples : List OSample) : Prop :=
   ∀ s ∈ samples,
     (Plain s ∧ (s.name.drop n.length = sBucket → s.name = n ++ sBucket ∧ ∃ l le, s.labels = some l ∧ dictGet l sLe = some le))
-    ∨ NhIn n s
+    ∨ s.nh.isSome = true
 
 theorem safe_doChecks (P : Params) (h : HSt) (hv : h.value.isSome = true) : Safe (doChecks P h) := by
   unfold doChecks
@@ -75,6 +70,9 @@ theorem safe_histStep (P : Params) (n : Str) (h : HSt) (s : OSample) (hp : Plain
   obtain ⟨sv, hsv⟩ := Option.isSome_iff_exists.mp hp.2
   obtain ⟨g, hg⟩ := groupForSample_hist_safe n s hp (fun e => (hb (by rw [e]; simp)).2)
   unfold histStep
+  split
+  · exact ⟨safe_ok _, fun h' hh => by cases hh; exact hv⟩
+  unfold histStepBody
   rw [hg]
   dsimp only
   by_cases c0 : (s.name.drop n.length).isEmpty = true
@@ -119,41 +117,12 @@ theorem safe_histStep (P : Params) (n : Str) (h : HSt) (s : OSample) (hp : Plain
               exact ⟨safe_ok _, fun h' hh => by cases hh; exact hv1⟩
             · exact ⟨safe_ok _, fun h' hh => by cases hh; exact hv1⟩
 
-theorem safe_histStep_nh (P : Params) (n : Str) (h : HSt) (s : OSample) (hs : NhIn n s) (hv : h.value.isSome = true) :
+theorem safe_histStep_nh (P : Params) (n : Str) (h : HSt) (s : OSample) (hs : s.nh.isSome = true) (hv : h.value.isSome = true) :
     Safe (histStep P n h s) ∧ ∀ h', histStep P n h s = .ok h' → h'.value.isSome = true := by
-  obtain ⟨hval, hnb, hng⟩ := hs
-  have hg : groupForSample s n tHistogram = .ok s.labels := by
-    unfold groupForSample
-    rw [if_neg not_info, not_summary]
-    simp only [Bool.false_and, Bool.false_eq_true, if_false, if_neg not_stateset]
-    have c : ¬ ((tHistogram == tHistogram || tHistogram == tGaugeHistogram) && s.name == n ++ sBucket) = true := by
-      intro c
-      have := (Bool.and_eq_true _ _ ▸ c : _ ∧ _).2
-      have e : s.name = n ++ sBucket := by simpa using this
-      exact hnb (by rw [e]; simp)
-    rw [if_neg c]
+  have hflag : histSkipsNh = true := by decide
   unfold histStep
-  rw [hg]
-  dsimp only
-  by_cases c0 : (s.name.drop n.length).isEmpty = true
-  · rw [if_pos c0]; exact ⟨safe_ok _, fun h' hh => by cases hh; exact hv⟩
-  · rw [if_neg c0]
-    obtain ⟨hrs, hrv⟩ := safe_histReset P h s.labels s.ts hv
-    cases hr : histReset P h s.labels s.ts with
-    | error e => exact ⟨fun e' he' => by cases he'; exact hrs e hr, fun h' hh => by cases hh⟩
-    | ok h1 =>
-      dsimp only
-      have hv1 := hrv h1 hr
-      have c1 : ¬ (s.name.drop n.length == sBucket) = true := by intro e; exact hnb (by simpa using e)
-      have c4 : ¬ (s.name.drop n.length == sGsum) = true := by intro e; exact hng (by simpa using e)
-      rw [if_neg c1]
-      split
-      · exact ⟨safe_ok _, fun h' hh => by cases hh; exact hv1⟩
-      · split
-        · exact ⟨safe_ok _, fun h' hh => by cases hh; exact hv1⟩
-        · first
-            | (rw [if_neg c4]; exact ⟨safe_ok _, fun h' hh => by cases hh; exact hv1⟩)
-            | exact ⟨safe_ok _, fun h' hh => by cases hh; exact hv1⟩
+  rw [hflag, hs]
+  exact ⟨safe_ok _, fun h' hh => by cases hh; exact hv⟩
 
 theorem safe_histLoop (P : Params) (n : Str) : ∀ (samples : List OSample) (h : HSt), HistOK n samples → h.value.isSome = true →
     Safe (histLoop P n h samples) ∧ ∀ h', histLoop P n h samples = .ok h' → h'.value.isSome = true := by
